@@ -183,6 +183,15 @@ func (p *polling) onDataRequest(ctx *types.HttpContext) {
 			ctx.Write(nil)
 			return
 		}
+		if err != nil {
+			// the body did not arrive completely: an aborted request, not a payload
+			cleanup()
+
+			p.OnError("data request connection closed prematurely", err)
+			ctx.SetStatusCode(http.StatusBadRequest)
+			ctx.Write(nil)
+			return
+		}
 	}
 	p.Proto().OnData(packet)
 
